@@ -41,11 +41,29 @@ func genConcCase(r *rng, k int, thorough bool) *concCase {
 		maxOps = 6
 	}
 	pure := r.chance(1, 2) // only increments and getters: the quiescent value is the capped sum
+	// one case in six: the clients mostly SET the counter (both flavours) to distinct values while others set, add and read — a
+	// set that is not one atomic step (read, then add the difference) then leaves values nobody set
+	setHeavy := !pure && r.chance(1, 3)
 	sum := int64(0)
 	for c := 0; c < nclients; c++ {
 		var prog []string
 		for i, n := 0, 1+r.intn(maxOps); i < n; i++ {
 			op := r.intn(20)
+			if setHeavy {
+				switch {
+				case op < 9:
+					prog = append(prog, fmt.Sprintf("ESetCur %d %d", 100*(c+1)+r.intn(40), 1+r.intn(1000)))
+				case op < 13:
+					prog = append(prog, fmt.Sprintf("SetCur %d", 100*(c+1)+50+r.intn(40)))
+				case op < 16:
+					v := int64(1 + r.intn(9))
+					sum += v
+					prog = append(prog, fmt.Sprintf("Incr %d", v))
+				default:
+					prog = append(prog, "GetCur")
+				}
+				continue
+			}
 			switch {
 			case op < 8 || (pure && op < 14):
 				v := int64(1 + r.intn(9))
@@ -79,6 +97,10 @@ func genConcCase(r *rng, k int, thorough bool) *concCase {
 			}
 		}
 		cc.progs = append(cc.progs, prog)
+	}
+	if setHeavy {
+		cc.total = 100000 // far away: no capping, no completion
+		return cc
 	}
 	switch r.intn(6) {
 	case 0:
